@@ -1,6 +1,7 @@
 SPECIFICATION TSpec
 CONSTANTS
   MaxLen = 0
+  ReadSize = 1
   Classes = {"idn"}
   MaxPend = 1
   Threads = {"req", "upd"}
